@@ -67,6 +67,73 @@ def ast_dump(tu_text, name):
     return objs
 
 
+class Forest:
+    """every declaration of the translation unit whose qualified name contains the filter (default `etl::`), from ONE
+    clang run, so that node ids are consistent: function definitions (also the instantiations nested in
+    FunctionTemplateDecl / class template specialisations) and variable declarations by id (for constants)."""
+
+    def __init__(self, objs):
+        self.funcs = []
+        self.vars = {}
+        for o in objs:
+            self.walk(o)
+
+    def walk(self, n):
+        k = n.get("kind")
+        if k in ("FunctionDecl", "CXXMethodDecl", "CXXConversionDecl") and any(x.get("kind") == "CompoundStmt" for x in n.get("inner", [])):
+            self.funcs.append(n)
+            return
+        if k == "VarDecl" and "id" in n:
+            self.vars[n["id"]] = n
+        for c in n.get("inner", []):
+            if isinstance(c, dict):
+                self.walk(c)
+
+
+SIZEOF = {"bool": 1, "char": 1, "signed char": 1, "unsigned char": 1, "short": 2, "unsigned short": 2, "int": 4, "unsigned int": 4,
+          "long": 8, "unsigned long": 8, "long long": 8, "unsigned long long": 8, "wchar_t": 4, "char8_t": 1, "char16_t": 2, "char32_t": 4}
+
+
+def const_eval(n, forest, depth=0):
+    """value of a constant initialiser (numeric_limits<T>::digits and the like), or Refuse.  Only literals, sizeof of a
+    builtin type, casts between integer types that keep the value, + - * and references to other constants."""
+    if depth > 20:
+        raise Refuse("constant initialiser too deep")
+    k = n.get("kind")
+    inner = [c for c in n.get("inner", []) if isinstance(c, dict)]
+    if k in ("IntegerLiteral", "CharacterLiteral"):
+        return int(n["value"])
+    if k == "CXXBoolLiteralExpr":
+        return 1 if n["value"] else 0
+    if k in ("ParenExpr", "ConstantExpr", "ExprWithCleanups", "ImplicitCastExpr", "CXXStaticCastExpr", "CXXFunctionalCastExpr", "CStyleCastExpr"):
+        v = const_eval(inner[0], forest, depth + 1)
+        if k.endswith("CastExpr") and n.get("castKind") == "IntegralCast":
+            name, bits, sg = ity_of(n)
+            lo = -(1 << (bits - 1)) if sg else 0
+            hi = (1 << (bits - 1)) - 1 if sg else (1 << bits) - 1
+            if not lo <= v <= hi:
+                raise Refuse("constant initialiser: value-changing cast")
+        return v
+    if k == "UnaryExprOrTypeTraitExpr" and n.get("name") == "sizeof":
+        t = strip_cv(n.get("argType", {}).get("desugaredQualType") or n.get("argType", {}).get("qualType") or "")
+        if t in SIZEOF:
+            return SIZEOF[t]
+        raise Refuse(f"sizeof({t}) in a constant initialiser")
+    if k == "BinaryOperator" and n.get("opcode") in ("+", "-", "*"):
+        a, b = const_eval(inner[0], forest, depth + 1), const_eval(inner[1], forest, depth + 1)
+        return {"+": a + b, "-": a - b, "*": a * b}[n["opcode"]]
+    if k == "ConditionalOperator":
+        return const_eval(inner[1] if const_eval(inner[0], forest, depth + 1) else inner[2], forest, depth + 1)
+    if k == "DeclRefExpr":
+        v = forest.vars.get(n.get("referencedDecl", {}).get("id"))
+        if v is not None:
+            init = [c for c in v.get("inner", []) if isinstance(c, dict) and c.get("kind") not in ("FullComment",)]
+            if init:
+                return const_eval(init[0], forest, depth + 1)
+        raise Refuse(f"constant {n.get('referencedDecl', {}).get('name')} has no visible initialiser")
+    raise Refuse(f"constant initialiser kind {k}")
+
+
 def qt(node):
     t = node.get("type", {})
     return t.get("desugaredQualType") or t.get("qualType") or ""
@@ -87,6 +154,7 @@ def ity_of(node):
 
 
 class Tr:
+    forest = None         # all declarations of the translation unit (set per configuration)
     kernel_calls = {}     # C++ function name -> Gallina name of an already generated kernel (set per configuration)
 
     def __init__(self, records, calls, members):
@@ -119,6 +187,9 @@ class Tr:
             rid = n["referencedDecl"]["id"]
             if rid in self.env:
                 return self.env[rid]
+            if n["referencedDecl"].get("kind") == "VarDecl" and Tr.forest is not None and rid in Tr.forest.vars:
+                v = const_eval(n, Tr.forest)
+                return str(v) if v >= 0 else f"({v})"
             raise Refuse(f"reference to unknown declaration {n['referencedDecl'].get('name')}")
         if k == "MemberExpr":
             name = n.get("name")
@@ -150,6 +221,9 @@ class Tr:
                 return f"(wrap_ty {name} (0 - {a}))"
             if op == "+":
                 return a
+            if op == "~":
+                name, bits, sg = ity_of(n)
+                return f"(not_ty {name} {a})"
             raise Refuse(f"unary operator {op}")
         if k == "BinaryOperator":
             return self.binop(n)
@@ -255,8 +329,17 @@ class Tr:
             while d.get("kind") in ("ParenExpr", "ImplicitCastExpr"):
                 d = d["inner"][0]
             if d.get("kind") != "IntegerLiteral" or int(d["value"]) in (0, -1):
-                raise Refuse("division by a non-literal (or 0 / -1) divisor")
+                t = self.fresh()
+                self.binds.append(("do", t, f"{'div_chk' if op == '/' else 'rem_chk'} {name} {a} {b}"))
+                return t
             f = "Z.quot" if op == "/" else "Z.rem"
+            return f"({f} {a} {b})"
+        if op in ("<<", ">>"):
+            t = self.fresh()
+            self.binds.append(("do", t, f"{'shl_chk' if op == '<<' else 'shr_chk'} {name} {a} {b}"))
+            return t
+        if op in ("&", "|", "^"):
+            f = {"&": "Z.land", "|": "Z.lor", "^": "Z.lxor"}[op]
             return f"({f} {a} {b})"
         if op in ("+", "-", "*"):
             if sg:
@@ -273,8 +356,8 @@ class Tr:
             k = s["kind"]
             if k == "DeclStmt":
                 for d in s.get("inner", []):
-                    if d["kind"] == "StaticAssertDecl":
-                        continue
+                    if d["kind"] in ("StaticAssertDecl", "TypeAliasDecl", "TypedefDecl"):
+                        continue      # no run-time meaning; the types they name reach us through the typed AST
                     if d["kind"] != "VarDecl" or "inner" not in d:
                         raise Refuse(f"declaration {d['kind']}")
                     init = [x for x in d["inner"] if x.get("kind") not in ("FullComment",)][0]
@@ -333,34 +416,38 @@ def render(binds, final, wrap_some=True):
     return out + final
 
 
-def select(objs, k):
-    cands = [o for o in objs if o.get("name") == k["cxx_name"] and o.get("kind") in ("FunctionDecl", "CXXMethodDecl")
-             and any(x.get("kind") == "CompoundStmt" for x in o.get("inner", []))]
+def select(forest, k):
+    cands = [o for o in forest.funcs if o.get("name") == k["cxx_name"]]
     if "signature_contains" in k:
-        cands = [o for o in cands if all(s in o.get("type", {}).get("qualType", "") for s in k["signature_contains"])]
+        cands = [o for o in cands if all(x in o.get("type", {}).get("qualType", "") for x in k["signature_contains"])]
+    if "signature_is" in k:
+        cands = [o for o in cands if o.get("type", {}).get("qualType", "") == k["signature_is"]]
     if len(cands) != 1:
-        raise Refuse(f"{len(cands)} candidate definitions for {k['cxx_name']} {k.get('signature_contains', '')}")
+        raise Refuse(f"{len(cands)} candidate definitions for {k['cxx_name']} {k.get('signature_contains', k.get('signature_is', ''))}")
     return cands[0]
 
 
-def translate_kernel(k, cfg, objs=None):
-    if objs is None:
-        objs = ast_dump(cfg["tu"], k["cxx_name"])
-    fn = select(objs, k)
+def translate_kernel(k, cfg, forest):
+    fn = select(forest, k)
     tr = Tr(cfg.get("records", {}), cfg.get("calls", {}), k.get("members", {}))
     params = []
+    ptypes = {}
     for p in fn.get("inner", []):
         if p["kind"] == "ParmVarDecl":
             pname = k.get("param_names", {}).get(p.get("name"), p.get("name"))
             tr.env[p["id"]] = pname
             params.append(pname)
+            try:
+                ptypes[pname] = "bool" if ity_of(p)[0] == "bool" else "Z"
+            except Refuse:
+                ptypes[pname] = "Z"       # record types carried as their integer representation (configuration `records`)
     for m in k.get("members", {}).values():
         params.append(m)
     body = [x for x in fn["inner"] if x["kind"] == "CompoundStmt"][0]
     term = tr.stmts(body.get("inner", []))
     if term is None:
         raise Refuse("function body without return")
-    sig = " ".join(f"({p} : Z)" for p in params)
+    sig = " ".join(f"({p} : {ptypes.get(p, 'Z')})" for p in params)
     return f"Definition {k['gallina_name']} {sig} :=\n  {term}.\n"
 
 
@@ -399,21 +486,20 @@ def main():
         except (OSError, ValueError):
             pass
     out = ["(* GENERATED by translate/cxx2gallina.py from %s/include — do not edit.  Regenerated on every run. *)" % "REPO",
-           "From Tetl Require Import Lib.Base.", "Local Open Scope Z_scope.",
+           "From Tetl Require Import Lib.Base Lib.MachOps.", "Local Open Scope Z_scope.",
            "Notation \"'do' x <- a ; b\" := (obind a (fun x => b)) (at level 200, x name, a at level 100, b at level 200).", ""]
     refused = {}
     Tr.kernel_calls = {}
-    # the AST dumps are independent of each other: fetch them in parallel, translate in order
-    from concurrent.futures import ThreadPoolExecutor
-    names = sorted({k["cxx_name"] for k in cfg["kernels"]})
-    with ThreadPoolExecutor(max_workers=8) as ex:
-        dumps = dict(zip(names, ex.map(lambda nm: _safe_dump(cfg["tu"], nm), names)))
+    try:
+        forest = Forest(ast_dump(cfg["tu"], cfg.get("filter", "etl::")))
+    except Refuse as e:
+        forest = e
+    Tr.forest = forest if isinstance(forest, Forest) else None
     for k in cfg["kernels"]:
         try:
-            d = dumps[k["cxx_name"]]
-            if isinstance(d, Refuse):
-                raise d
-            out.append(translate_kernel(k, cfg, d))
+            if isinstance(forest, Refuse):
+                raise forest
+            out.append(translate_kernel(k, cfg, forest))
             if k.get("callable"):
                 Tr.kernel_calls[k["cxx_name"]] = k["gallina_name"]
         except Refuse as e:
@@ -430,13 +516,6 @@ def main():
             json.dump({"key": key, "refused": refused}, f)
     print(json.dumps({"refused": refused, "kernels": [k["gallina_name"] for k in cfg["kernels"]], "changed": old != text}))
     return 1 if refused else 0
-
-
-def _safe_dump(tu, name):
-    try:
-        return ast_dump(tu, name)
-    except Refuse as e:
-        return e
 
 
 if __name__ == "__main__":
